@@ -251,9 +251,16 @@ def _set_coef(nas, method, which):
             n = m.alpha.shape[0]
             pos = (which + i) % n
             if m.alpha.dim() == 2:
-                m.alpha.copy_(torch.stack([_reps(n, (pos + c) % n)[(which + c) % 3] for c in range(m.alpha.shape[1])], dim=1))
+                t = torch.stack([_reps(n, (pos + c) % n)[(which + c) % 3] for c in range(m.alpha.shape[1])], dim=1)
             else:
-                m.alpha.copy_(_reps(n, pos)[which % 3])
+                t = _reps(n, pos)[which % 3]
+            # in-place copy / `.data` re-assignment / copy into `.data` (the latter two do not bump the version counter)
+            if which % 3 == 0:
+                m.alpha.copy_(t)
+            elif which % 3 == 1:
+                m.alpha.data = t.clone()
+            else:
+                m.alpha.data.copy_(t)
 
 
 def _run_B(case, seed):
